@@ -36,8 +36,8 @@ def verify(src):
             return name, 'patch does not apply: ' + out[-300:]
         sh('git diff > /var/tmp/vs-%s.diff' % name, cwd=wt)
         rc, out = sh('cmake -G Ninja -B _build -DCMAKE_BUILD_TYPE=RelWithDebInfo -DCMAKE_C_FLAGS=-Wno-error . >/dev/null && '
-                     'cmake --build _build -- -k 0 -j8 > build.log 2>&1; grep FAILED: build.log | grep -v l2m', cwd=wt, timeout=3600)
-        res['build_failures_other_than_l2m'] = out.strip()
+                     'cmake --build _build -- -k 0 -j8 > build.log 2>&1; grep ^FAILED: build.log | grep -v l2m', cwd=wt, timeout=3600)
+        res['build_failures_other_than_l2m'] = '\n'.join(l for l in out.split('\n') if l.startswith('FAILED:'))
         rc, out = sh('ctest --test-dir _build -j8 --timeout 900 2>&1 | tail -4', cwd=wt, timeout=3600)
         res['ctest'] = out.strip().split('\n')[0] if out.strip() else ''
         res['tests_pass'] = '100% tests passed' in out
